@@ -83,6 +83,21 @@ def _gen_core(rng, tier):
         yield Case("compress", [1, rows_str(rows)], True, "compress")
 
 
+    # dictionary stratum: two DIFFERENT sequences / column patterns that collide under a common 32-bit hash
+    from driver import hashpairs
+    for h, x, y in hashpairs.all_pairs():
+        nuc = not (set(x + y) - set("ACGTN-"))
+        extra = "".join(rng.choice("ACGT" if nuc else "ARNDCQEG") for _ in range(len(x)))
+        rows = [("s0", x), ("s1", extra), ("s2", y), ("s3", x)]
+        rng.shuffle(rows)
+        for g in (0, 1):
+            yield Case("dedup", [1 if nuc else 0, rows_str(rows), g], True, "dedup-hash-collision-" + h)
+        # the same strings as column patterns (one row per character), the colliding patterns repeated
+        cols = [x, extra, y, x, y, y]
+        rng.shuffle(cols)
+        rws = [("s%d" % i, "".join(c[i] for c in cols)) for i in range(len(x))]
+        yield Case("compress", [1 if nuc else 0, rows_str(rws)], True, "compress-hash-collision-" + h)
+
     # large inputs: growth of the internal tables (more than 100 / 1000 distinct sequences or patterns), duplicates that
     # arrive long after their first occurrence
     for _ in range(6 if tier == "quick" else 60):
